@@ -5,8 +5,6 @@ import (
 	"go/ast"
 	"go/token"
 	"go/types"
-	"regexp"
-	"sort"
 	"strings"
 
 	"golang.org/x/tools/go/ssa"
@@ -54,9 +52,6 @@ var cmapKinds = []cmapKind{
 
 func runC07(c *Ctx) {
 	reg := c.registry()
-	ia := c.interp()
-	info := c.info("postscript")
-	cmT := c.typeObj("postscript", "CMapInfo")
 
 	// ---- registry
 	var missing []string
@@ -70,253 +65,7 @@ func runC07(c *Ctx) {
 	}
 	c.check(len(missing) == 0, "CMAP-REGISTRY", "postscript.cidInit", "the 17 CIDInit operators are defined", token.NoPos, fmt.Sprintf("%d operators", n), "CIDInit lacks "+strings.Join(missing, ", "))
 
-	lit := func(op string) *ast.FuncLit {
-		e := reg.byKey["cidInit/"+op]
-		if e == nil {
-			return nil
-		}
-		var fl *ast.FuncLit
-		ast.Inspect(e.expr, func(n ast.Node) bool {
-			if f, ok := n.(*ast.FuncLit); ok && fl == nil {
-				fl = f
-			}
-			return true
-		})
-		return fl
-	}
-
-	for _, k := range cmapKinds {
-		// ---------------- begin*
-		f := reg.op("cidInit", k.begin)
-		fname := c.fname(f)
-		// the store that sizes the scratch buffer
-		var sizeStore *ssa.Store
-		eachInstr(f, func(ins ssa.Instruction) {
-			if st, ok := ins.(*ssa.Store); ok && isFieldAddr(st.Addr, ia.T, k.scratch) {
-				sizeStore = st
-			}
-		})
-		if sizeStore == nil {
-			c.fail("CMAP-BEGIN", fname, "scratch buffer sized by the declared count", f.Pos(), k.begin+" does not set Interpreter."+k.scratch)
-		} else {
-			conds := domConds(sizeStore.Block())
-			// operand n: the Integer on top of the stack
-			isN := func(v ssa.Value) bool {
-				d, ok := stackOperand(v, ia.T)
-				return ok && d == 1
-			}
-			ub, okU := upperBoundConst(conds, isN)
-			lb, okL := lowerBoundConst(conds, isN)
-			c.check(okU && okL && lb == 0 && ub == 100, "CMAP-BEGIN", fname, "declared count in [0,100]", sizeStore.Pos(), fmt.Sprintf("%d <= n <= %d", lb, ub), fmt.Sprintf("%s accepts counts in [%d,%d] (bounds found: %v,%v); the CMap format allows 0..100", k.begin, lb, ub, okL, okU))
-			// the size of the buffer is that operand
-			sized := false
-			var walk func(v ssa.Value, depth int) bool
-			walk = func(v ssa.Value, depth int) bool {
-				if depth > 6 {
-					return false
-				}
-				if isN(v) {
-					return true
-				}
-				switch x := v.(type) {
-				case *ssa.MakeSlice:
-					return walk(x.Len, depth+1)
-				case *ssa.Slice:
-					return x.High != nil && walk(x.High, depth+1)
-				case *ssa.Convert:
-					return walk(x.X, depth+1)
-				case *ssa.ChangeType:
-					return walk(x.X, depth+1)
-				}
-				return false
-			}
-			sized = walk(sizeStore.Val, 0)
-			c.check(sized, "CMAP-BEGIN", fname, "scratch buffer has exactly the declared number of entries", sizeStore.Pos(), "len = n", k.begin+" does not size its scratch buffer with the declared count")
-			// in-cmap test, stack guard, integer assertion with their error names
-			inCmap, stackG, isInt := false, false, false
-			for _, cd := range conds {
-				m, ok := asCmp(cd)
-				if ok && m.op == token.NEQ && isFieldLoad(m.x, ia.T, c.fld("intp.cmapMappings")) && isNilConst(m.y) {
-					inCmap = c.otherEdgeErr(cd) == "undefined"
-				}
-				if ifi, isIf := cd.blk.Instrs[len(cd.blk.Instrs)-1].(*ssa.If); isIf {
-					if kk, succ, isG := underflowGuard(ifi, func(v ssa.Value) bool { return lenOfField(v, ia.T, "Stack") }); isG && kk == 1 && (succ == 0) != cd.truth {
-						stackG = c.otherEdgeErr(cd) == "stackunderflow"
-					}
-				}
-				if ex, isEx := cd.v.(*ssa.Extract); isEx && ex.Index == 1 && cd.truth {
-					if ta, isTA := ex.Tuple.(*ssa.TypeAssert); isTA && typeIsNamed(ta.AssertedType, c.typeObj("postscript", "Integer")) {
-						isInt = c.otherEdgeErr(cd) == "typecheck"
-					}
-				}
-			}
-			c.check(inCmap && stackG && isInt, "CMAP-BEGIN", fname, "requires an open cmap block (undefined), one operand (stackunderflow) of type integer (typecheck)", f.Pos(), "three guards dominate the buffer set-up, each with its error name",
-				fmt.Sprintf("%s: guards before the buffer is set up — open cmap block/undefined: %v, operand present/stackunderflow: %v, integer/typecheck: %v", k.begin, inCmap, stackG, isInt))
-			// out-of-range → rangecheck
-			rc := false
-			for _, cd := range conds {
-				m, ok := asCmp(cd)
-				if ok && isN(m.x) {
-					if c.otherEdgeErr(cd) == "rangecheck" {
-						rc = true
-					}
-				}
-			}
-			c.check(rc, "CMAP-BEGIN", fname, "count out of range → rangecheck", f.Pos(), "rangecheck", k.begin+" does not report rangecheck for a count outside 0..100")
-		}
-
-		// ---------------- end*
-		g := reg.op("cidInit", k.end)
-		gname := c.fname(g)
-		fl := lit(k.end)
-		if fl == nil {
-			c.fail("CMAP-END", gname, "function literal", g.Pos(), "operator body not found")
-			continue
-		}
-		text := nodeString(c, fl.Body)
-		// base = len(Stack) - k*len(scratch)
-		okBase := strings.Contains(text, fmt.Sprintf("base := len(intp.Stack) - %d*len(intp.%s)", k.k, k.scratch))
-		okUnder := regexp.MustCompile(`if base < 0 \{ return intp\.e\(eStackunderflow`).MatchString(text)
-		c.check(okBase && okUnder, "CMAP-END", gname, fmt.Sprintf("%d operands per declared entry, below base = len(Stack) − %d·n; base < 0 → stackunderflow", k.k, k.k), fl.Pos(), "", fmt.Sprintf("%s: operand base (found: %v) or stack underflow report (found: %v) deviates: a block with fewer entries than declared must be rejected", k.end, okBase, okUnder))
-		// in-cmap test
-		c.check(strings.Contains(text, "if intp.cmapMappings == nil { return intp.e(eUndefined"), "CMAP-END", gname, "requires an open cmap block", fl.Pos(), "", k.end+" does not test for an open cmap block (nil dereference / missing begincmap)")
-		// per-entry checks, via SSA: type assertions inside the loop
-		var asserted []string
-		eachInstr(g, func(ins ssa.Instruction) {
-			if ta, ok := ins.(*ssa.TypeAssert); ok && ta.CommaOk && inCycle(ta.Block()) {
-				if nt, ok := ta.AssertedType.(*types.Named); ok {
-					asserted = append(asserted, nt.Obj().Name())
-				}
-			}
-		})
-		sort.Strings(asserted)
-		wantAssert := []string{"String"}
-		if k.isRange {
-			wantAssert = []string{"String", "String"}
-		}
-		switch k.dest {
-		case "Integer":
-			wantAssert = append(wantAssert, "Integer")
-		}
-		sort.Strings(wantAssert)
-		destOK := true
-		destWhy := ""
-		switch k.dest {
-		case "String|Name":
-			destOK = strings.Contains(text, "if !isStringOrName(val) { return intp.e(eTypecheck")
-			destWhy = "string or name"
-		case "String|Array":
-			destOK = strings.Contains(text, "if !isStringOrArray(val) { return intp.e(eTypecheck")
-			destWhy = "string or array"
-		case "Integer":
-			destOK = regexp.MustCompile(`if _, ok := val\.\(Integer\); !ok \{ return intp\.e\(eTypecheck`).MatchString(text)
-			destWhy = "integer"
-		}
-		c.check(fmt.Sprint(asserted) == fmt.Sprint(wantAssert), "CMAP-END", gname, "source codes are strings (per entry)", fl.Pos(), fmt.Sprint(asserted), fmt.Sprintf("%s asserts %v per entry, expected %v", k.end, asserted, wantAssert))
-		if k.dest != "" {
-			c.check(destOK, "CMAP-END", gname, "destination must be "+destWhy+" (typecheck)", fl.Pos(), "", k.end+" does not reject a destination that is not "+destWhy)
-		}
-		if k.isRange {
-			okRange := strings.Contains(text, "if len(lo) != len(hi) || bytes.Compare(lo, hi) > 0 { return intp.e(eRangecheck")
-			c.check(okRange, "CMAP-END", gname, "bounds of equal length and low ≤ high (rangecheck)", fl.Pos(), "", k.end+" does not reject bounds of unequal length or a reversed range with rangecheck")
-		}
-		// stores into the result only after the loop; append copies into the table of this kind; operands popped; scratch reset
-		var resStores []*ssa.Store
-		eachInstr(g, func(ins ssa.Instruction) {
-			if st, ok := ins.(*ssa.Store); ok {
-				if _, fld, ok := fieldAddrOf(st.Addr); ok {
-					if base, _, _ := fieldAddrOf(st.Addr); pointsTo(base.Type(), cmT) {
-						_ = fld
-						resStores = append(resStores, st)
-					}
-				}
-			}
-		})
-		okStore := len(resStores) == 1
-		whyStore := fmt.Sprintf("%d stores into the CMap tables", len(resStores))
-		if okStore {
-			st := resStores[0]
-			_, fld, _ := fieldAddrOf(st.Addr)
-			if fld.Name() != k.field {
-				okStore, whyStore = false, "stores into "+fld.Name()+", expected "+k.field
-			}
-			if inCycle(st.Block()) {
-				okStore, whyStore = false, "the result table is written inside the entry loop, before all entries are validated"
-			}
-			call, isCall := st.Val.(*ssa.Call)
-			if !isCall {
-				okStore, whyStore = false, "the table is assigned a slice directly instead of appending copies of the entries: it then shares storage with the scratch buffer, which later blocks overwrite"
-			} else if b, ok := call.Common().Value.(*ssa.Builtin); !ok || b.Name() != "append" || !isFieldLoad(call.Common().Args[0], cmT, k.field) || !isFieldLoad(call.Common().Args[1], ia.T, k.scratch) {
-				okStore, whyStore = false, "the table is not extended by append(table, scratch...)"
-			}
-		}
-		c.check(okStore, "CMAP-END", gname, "validated entries are appended (copied) to "+k.field+" after the loop", fl.Pos(), "append(cmapMappings."+k.field+", scratch...)", k.end+": "+whyStore)
-		okPop := strings.Contains(text, "intp.Stack = intp.Stack[:base]")
-		okReset := strings.Contains(text, "intp."+k.scratch+" = intp."+k.scratch+"[:0]") || strings.Contains(text, "intp."+k.scratch+" = nil")
-		c.check(okPop && okReset, "CMAP-END", gname, "operands popped, scratch buffer reset", fl.Pos(), "Stack = Stack[:base]; scratch = scratch[:0]", fmt.Sprintf("%s: pops its operands: %v, resets the scratch buffer: %v", k.end, okPop, okReset))
-	}
-
-	// ---------------- sibling agreement
-	families := map[string][]cmapKind{}
-	for _, k := range cmapKinds {
-		fam := "char"
-		if k.isRange {
-			fam = "range"
-		}
-		if k.begin == "begincodespacerange" {
-			continue
-		}
-		families[fam] = append(families[fam], k)
-	}
-	norm := func(op string, k cmapKind) string {
-		fl := lit(op)
-		if fl == nil {
-			return ""
-		}
-		t := nodeString(c, fl.Body)
-		t = regexp.MustCompile(`"[^"]*"`).ReplaceAllString(t, `""`)
-		t = strings.ReplaceAll(t, k.field, "TABLE")
-		t = regexp.MustCompile(`if _, ok := val\.\(Integer\); !ok`).ReplaceAllString(t, "if !DEST(val)")
-		t = regexp.MustCompile(`if !isStringOr(Name|Array)\(val\)`).ReplaceAllString(t, "if !DEST(val)")
-		return t
-	}
-	for _, fam := range []string{"char", "range"} {
-		ks := families[fam]
-		for _, side := range []string{"begin", "end"} {
-			ref := ""
-			refOp := ""
-			for _, k := range ks {
-				op := k.begin
-				if side == "end" {
-					op = k.end
-				}
-				t := norm(op, k)
-				if ref == "" {
-					ref, refOp = t, op
-					continue
-				}
-				c.check(t == ref, "CMAP-SIBLINGS", "postscript.cidInit$"+op, "body identical to "+refOp+" up to operator name, target table and destination test", token.NoPos, "normalised source text equal",
-					op+" deviates from its sibling "+refOp+": "+firstDiff(ref, t))
-			}
-		}
-	}
-
-	// ---------------- endcmap sorts
-	c.endcmapSorts(reg, info, lit("endcmap"))
-
-	// ---------------- usecmap
-	{
-		f := reg.op("cidInit", "usecmap")
-		ok := false
-		eachInstr(f, func(ins ssa.Instruction) {
-			if st, ok2 := ins.(*ssa.Store); ok2 && isFieldAddr(st.Addr, cmT, "UseCMap") {
-				if d, isOp := stackOperand(st.Val, ia.T); isOp && d == 1 {
-					ok = true
-				}
-			}
-		})
-		c.check(ok, "CMAP-USECMAP", c.fname(f), "the referenced CMap name is recorded", f.Pos(), "UseCMap = operand", "usecmap does not record its name operand in UseCMap")
-	}
+	c.cmapTables()
 }
 
 // otherEdgeErr: the PostScript error name returned on the edge of cd's If
